@@ -170,6 +170,27 @@ def fragments3(rng):
     return pred, ref
 
 
+def fragments4(rng):
+    """two adjacent references; Q covers most of the first, P BRIDGES both (a part in each), S is a small fragment inside the second:
+    P is a candidate of both references -- whichever takes or rejects it first, it stays a candidate of the other one"""
+    a, b = rng.randint(8, 16), rng.choice([rng.randint(8, 16), rng.randint(24, 60)])
+    k, m = rng.randint(1, 5), rng.randint(2, 8)            # P = [a - k, a + m)
+    h = rng.choice([1, 1, 2])
+    w = a + b + rng.randint(0, 3)
+    ref = np.zeros((h, w), np.uint8); pred = np.zeros((h, w), np.uint8)
+    ref[:, 0:a] = 1; ref[:, a:a + b] = 2
+    pred[:, rng.randint(0, 2):a - k] = 1
+    pred[:, a - k:a + m] = 2
+    s0 = a + m + rng.randint(0, 3)
+    if s0 < a + b:
+        pred[:, s0:min(a + b, s0 + rng.randint(1, 4))] = 3
+    if rng.random() < 0.3 and s0 + 5 < a + b:
+        pred[:, s0 + 5:a + b] = 4
+    if rng.random() < 0.5:
+        pred, ref = np.ascontiguousarray(pred[:, ::-1]), np.ascontiguousarray(ref[:, ::-1])
+    return pred, ref
+
+
 def run(ctx):
     common.serial_pool()
     rng = ctx.rng
@@ -179,11 +200,11 @@ def run(ctx):
     p = np.zeros((1, 40), np.uint8); p[0, 0:7] = 1; p[0, 7:40] = 2
     cases.append((p, r, "ASSD", 5.0))
     for it in range(ctx.scale(300, 3000)):
-        pred, ref = fragments(rng) if it % 3 == 0 else (fragments2(rng) if it % 3 == 1 else fragments3(rng))
+        pred, ref = [fragments, fragments2, fragments3, fragments4][it % 4](rng)
         if not pred.any() or not ref.any():
             continue
         mname = rng.choice(["IOU", "DSC", "ASSD"])
-        thr = rng.choice([0.0, 0.2, 0.5, 0.7]) if mname != "ASSD" else rng.choice([0.3, 1.0, 2.5, 10.0])
+        thr = rng.choice([0.0, 0.1, 0.2, 0.3, 0.5, 0.7]) if mname != "ASSD" else rng.choice([0.3, 1.0, 2.5, 10.0])
         if rng.random() < 0.35:
             # reference label VALUES are arbitrary (sparse, not 1..n): the labels given to unassigned predictions must avoid them
             labs = [int(x) for x in np.unique(ref) if x]
